@@ -113,4 +113,5 @@ impl Check for Idempotent {
 pub fn run(ctx: &mut Ctx) {
     ctx.run_random(&Idempotent, fmt::strategy(5, 4), ctx.tier.pick(30_000, 500_000));
     ctx.run_random(&Idempotent, fmt::strategy(2, 7), ctx.tier.pick(10_000, 200_000));
+    ctx.run_random(&Idempotent, fmt::typed_strategy(), ctx.tier.pick(6_000, 100_000));
 }
